@@ -7,6 +7,7 @@ import Driver.Cmap
 import Driver.Zones
 import Driver.Heap
 import Driver.Assoc
+import Driver.Shape
 /-! `grdriver <mode>`: one input line → one output line (DESIGN.md §2 "line protocol") -/
 open Driver
 
@@ -35,6 +36,7 @@ def main (args : List String) : IO UInt32 := do
   | ["zones"] => loop stdin stdout Zones.step; return 0
   | ["heap"] => loop stdin stdout Heap.step; return 0
   | ["lines"] => loop stdin stdout Heap.stepLines; return 0
+  | ["shape"] => loop stdin stdout Shape.step; return 0
   | ["assoc"] => loop stdin stdout Assoc.step; return 0
   | ["lz4io"] => loopIO stdin stdout Lz4.stepIO; return 0
   | _ => IO.eprintln "usage: grdriver <mode>"; return 2
